@@ -226,6 +226,8 @@ func runC01(c *eng.Ctx) {
 	// ---- R13 shared informer lifetime (shared with C02.R8, C08.R6)
 	r13 := c.Rule("C01.R13", "D:provenance+C", "a shared informer runs under its factory's detached context and is cancelled only when its last handler registration is removed", 3)
 	runSharedInformerLifetime(c, r13)
+	r14 := c.Rule("C01.R14", "H:idiom", "the OnAdd handlers do not treat the informer's initial list specially (two lists are taken at different moments: the difference is only reported through these notifications)", 2)
+	runInitialListHandled(c, r14)
 }
 
 // unmatchedSwitchEdge: the false edge of the last case of a switch over a parameter whose call sites pass only
